@@ -283,6 +283,39 @@ theorem runs_Open_arm64_reject :
       [cipher0, zeros 32, .int 12, .int 16, zeros 0, zeros 12, .arr (List.replicate 30 (.int 1)), zeros 5, .int 0]).map
       (fun r => (declassOf r.2, match r.1 with | .ret vs => argInt vs 2 | _ => 999)) = some ([(0, 1)], 1) := by decide +kernel
 
+
+/-- arm64 Open ACCEPTS: with the all-zero model of the routines the expected tag is zero, and the
+    16-byte zero tag matches: verdict 0 (no mismatch), 14 bytes of plaintext returned, nil error -/
+theorem runs_Open_arm64_accept :
+    (run (slice SMGo.Gen.CTIRProgSM4.Arm64.prog SMGo.Gen.CTIRProgSM4.Arm64.f_sm4_sm4GcmAsm_Open) SMGo.Gen.CTIRProgSM4.Arm64.globals (asmOracle SMGo.Gen.CTIRProgSM4.Arm64.asmSpecs sem0) 400 SMGo.Gen.CTIRProgSM4.Arm64.f_sm4_sm4GcmAsm_Open
+      [cipher0, zeros 32, .int 12, .int 16, zeros 0, zeros 12, zeros 30, zeros 5, .int 0]).map
+      (fun r => (declassOf r.2, match r.1 with | .ret vs => (argLen vs 1, argInt vs 2) | _ => (999, 999))) = some ([(0, 0)], (14, 0)) := by decide +kernel
+
+/-- a model of the routines whose integer results are 1 (openAsm reports a matching tag) -/
+def sem1 : Nat → List Val → Nat → List Int := fun _ _ _ => [1]
+
+/-- amd64 Seal (wrapper around sealAsm): 40 bytes of plaintext, 16-byte tag, no room in dst: 56 bytes -/
+theorem runs_Seal_amd64 :
+    (run (slice SMGo.Gen.CTIRProgSM4.Amd64.prog SMGo.Gen.CTIRProgSM4.Amd64.f_sm4_sm4GcmAsm_Seal) SMGo.Gen.CTIRProgSM4.Amd64.globals (asmOracle SMGo.Gen.CTIRProgSM4.Amd64.asmSpecs sem1) 400 SMGo.Gen.CTIRProgSM4.Amd64.f_sm4_sm4GcmAsm_Seal
+      [cipher0, zeros 32, .int 12, .int 16, zeros 0, zeros 12, zeros 40, zeros 5, .int 0]).map
+      (fun r => match r.1 with | .ret vs => argLen vs 1 | _ => 999) = some 56 := by decide +kernel
+
+/-- amd64 Open ACCEPTS when openAsm returns 1: verdict 0, 14 bytes of plaintext, nil error -/
+theorem runs_Open_amd64_accept :
+    (run (slice SMGo.Gen.CTIRProgSM4.Amd64.prog SMGo.Gen.CTIRProgSM4.Amd64.f_sm4_sm4GcmAsm_Open) SMGo.Gen.CTIRProgSM4.Amd64.globals (asmOracle SMGo.Gen.CTIRProgSM4.Amd64.asmSpecs sem1) 400 SMGo.Gen.CTIRProgSM4.Amd64.f_sm4_sm4GcmAsm_Open
+      [cipher0, zeros 32, .int 12, .int 16, zeros 0, zeros 12, zeros 30, zeros 5, .int 0]).map
+      (fun r => (declassOf r.2, match r.1 with | .ret vs => (argLen vs 1, argInt vs 2) | _ => (999, 999))) = some ([(0, 0)], (14, 0)) := by decide +kernel
+
+/-- needExpand answers "allocate" (1), every other routine zeros: openAsm reports a mismatch -/
+def semR : Nat → List Val → Nat → List Int :=
+  fun name _ _ => if name = SMGo.Gen.CTIRProgSM4.Amd64.x_sm4_needExpand then [1] else []
+
+/-- … and REJECTS when openAsm returns 0 -/
+theorem runs_Open_amd64_reject :
+    (run (slice SMGo.Gen.CTIRProgSM4.Amd64.prog SMGo.Gen.CTIRProgSM4.Amd64.f_sm4_sm4GcmAsm_Open) SMGo.Gen.CTIRProgSM4.Amd64.globals (asmOracle SMGo.Gen.CTIRProgSM4.Amd64.asmSpecs semR) 400 SMGo.Gen.CTIRProgSM4.Amd64.f_sm4_sm4GcmAsm_Open
+      [cipher0, zeros 32, .int 12, .int 16, zeros 0, zeros 12, zeros 30, zeros 5, .int 0]).map
+      (fun r => (declassOf r.2, match r.1 with | .ret vs => argInt vs 2 | _ => 999)) = some ([(0, 1)], 1) := by decide +kernel
+
 #print axioms asmOracle_rel_arm64
 #print axioms frames_arm64
 #print axioms frames_amd64
@@ -299,5 +332,8 @@ theorem runs_Open_arm64_reject :
 #print axioms Open_amd64_trace
 #print axioms Open_arm64_progress
 #print axioms runs_Seal_arm64
+#print axioms runs_Open_arm64_accept
+#print axioms runs_Seal_amd64
+#print axioms runs_Open_amd64_accept
 
 end SMGo.Props.C09Glue
